@@ -52,6 +52,9 @@ def run(ctx, rep):
     r123(ctx, rep)
     r124(ctx, rep)
     r125(ctx, rep)
+    rep.rule("R12.6", "the factorisation reused for updates/resets belongs to the current interpolation set: the cache is keyed by exact equality with a copy of the points")
+    from .c11 import r114
+    r114(ctx, rep, rule="R12.6")
 
 
 # ---------------------------------------------------------------------------
@@ -477,6 +480,14 @@ def r124(ctx, rep):
             step_var = a.id
     if step_var is None:
         raise AnalysisError("_eval(.., step, ..) call with a variable step not found")
+    for nid_e, ev in evals.items():
+        a = arg_for(ev.node, ew, "step", "func")
+        if isinstance(a, ast.Name) and a.id == step_var:
+            rep.ok("R12.4", f"minimize:{ev.line} evaluates x_best + {step_var}")
+        else:
+            rep.bad("R12.4", f"minimize:{ev.line} _eval step argument")
+            rep.finding("R12.4", m, ev.text()[:100], ev.line,
+                        f"the problem is evaluated at x_best + `{norm(a) if isinstance(a, ast.AST) else a}` but the point stored in the interpolation set is x_best + {step_var}: the recorded values belong to another point")
 
     # relational state: (current step def, eval node, step def at eval, dirty)
     def transfer(node, state, label):
